@@ -8,9 +8,10 @@ COMP = [b"a", b"b", b"c", b"req", b"lat", b"x", b"y", b"9", b"p-q", b"z_sum", b"
 LKEYS = [b"env", b"job2", b"k_1", b"dc", b"le", b"quantile", b"__x", b"aa"]
 TAGKEYS = [b"env", b"k", b"a.b", b"a-b", b"dc", b"h\xef\xbf\xbdst", b"9k", b"le", b"quantile", b"__name__", b"-_x", b"job2",
            "\u0440\u0435\u0433\u0438\u043e\u043d".encode(), "\u043a\u043b\u0430\u0441\u0442\u0435\u0440".encode(), b"shard\xd9\xa3", b"shard_", b"K" * 70,
-           b"a", b"bc", b"ab", b"c"]               # different (sorted) key sets with equal concatenations: {a, bc} and {ab, c}
+           b"a", b"bc", b"ab", b"c", GL.FNV64_TWINS[0], GL.FNV64_TWINS[1]]               # different (sorted) key sets with equal concatenations: {a, bc} and {ab, c}
 TAGVALS = [b"prod", b"v", b"1", b"a=b", b"with space", b"caf\xc3\xa9", b"x.y",
-           b"a", b"ab", b"b", b"bc", b"c", b"abc"]          # the last six: different value tuples with equal concatenations
+           b"a", b"ab", b"b", b"bc", b"c", b"abc",           # different value tuples with equal concatenations
+           b"p", b"r", b"p\xc3\xbfq", b"q\xc3\xbfr", b"p\x00q", b"q\x00r"]          # ... and with a would-be separator (U+00FF, NUL) shifted across the boundary
 SCALES = [None, None, None, 0.5, 2.0, 1000.0, 0.0, -1.0, 0.001]
 TTLS = [0, 0, 10**9, 2 * 10**9, 5 * 10**9, 10 * 10**9, 9223369200 * 10**9]          # the last one: 2562047h, the longest duration YAML can spell
 BUCKETS = [[0.1, 1.0, 10.0], [1.0], [0.005, 0.5, 5.0, float("inf")], [-1.0, 0.0, 1.0], [1e-9, 1e9]]
